@@ -180,6 +180,12 @@ func runReplay(job *Job) Result {
 			}
 		}
 		got := Obs(x, last, 0)
+		if r.Src == "gen" { // a generated behaviour without expectations: executed, counted
+			if nrec%2000 == 1 && len(res.Samples) < 8 {
+				res.Samples = append(res.Samples, fmt.Sprintf("%q -> (%s,%d)", buf, verdict, offs))
+			}
+			continue
+		}
 		if r.Src == "decl" {
 			okv := verdict == r.Err
 			for _, e := range r.Errs {
